@@ -172,6 +172,11 @@ POSITIONS = [
     ('position', 'dw %position(HERE, {})', lambda v: 0 <= v < (1 << 31)),
     ('expr', 'addi x5, x6, {} + 1', lambda v: -2048 <= v + 1 <= 2047),
     ('csr', 'csrrw x1, x2, {}', lambda v: -2048 <= v <= 2047),
+    # the compressed jumps / branches take their operand as a plain offset: a constant there is its value
+    ('cj', 'c.j {}', lambda v: -2048 <= v <= 2046 and v % 2 == 0),
+    ('cjal', 'c.jal {}', lambda v: -2048 <= v <= 2046 and v % 2 == 0),
+    ('cbeqz', 'c.beqz x8, {}', lambda v: -256 <= v <= 254 and v % 2 == 0),
+    ('caddi', 'c.addi x9, {}', lambda v: -32 <= v <= 31 and v != 0),
 ]
 
 
@@ -182,11 +187,13 @@ def subst_case(args):
     rnd = common.rng('c11sub:%d' % idx)
     pname, tmpl, okfn = POSITIONS[idx % len(POSITIONS)]
     for _ in range(50):
-        v = rnd.choice([0, 1, 2, 5, 8, 15, 16, 31, 32, -1, -32, -33, 2047, -2048, 255, 0x800, 0xfffff, 0x12345678,
+        v = rnd.choice([0, 1, 2, 5, 8, 15, 16, 31, 32, -1, -32, -33, 2047, -2048, 255, 0x800, 0xfffff, 0x12345678, -2, 6, 254, -256, 2046,
                         rnd.randrange(-40, 40), rnd.randrange(-2048, 2048), rnd.randrange(0, 1 << 32)])
         if okfn(v):
             break
-    name = rnd.choice(['K', 'VALUE', 'k1', 'RCU_BASE', '_x'])
+    # names that begin like a directive, a mnemonic or a register are still just names
+    name = rnd.choice(['K', 'VALUE', 'k1', 'RCU_BASE', '_x', 'string_base', 'error_mask', 'stringy', 'errors', 'include_dir', 'align4',
+                       'bytes_n', 'pack_fmt', 'db2', 'li_v', 'x1_copy', 'a0b', 'sp_top', 'nop_count', 'ret_addr', 'c_j'])
     pre = ['addi x0 x0 0'] * rnd.randrange(0, 3)
     post = ['HERE:', 'addi x0 x0 0']
     lit = str(v) if rnd.random() < 0.5 or v < 0 else hex(v)
